@@ -81,7 +81,7 @@ CHECKS = {
             "After each faulted run an independent archive reader decides: session raised -> target path absent / logically identical to its previous complete content; fault absorbed -> equals the fault-free result; "
             "then one clean re-run on the same path must succeed and reproduce the fault-free result (bounded liveness). Enumeration per workload is complete in the thorough tier; workloads themselves are sampled. "
             "Workloads also include EKO.deepcopy and ekobox.utils.ekos_product (in place / to a new path), and 30% run with the temp area 'on another file system' (cross-directory renames fail with EXDEV). "
-            "Further fault modes: a SECOND fault on events that only exist because of the first one (error handling, fallbacks, clean-up code), faults inside pool workers for real-physics workloads on 2-3 cores, garbage collection at the end of every simulated session (finalizers run at a defined instant), and detection of state a failed session leaves behind in the process (a later run diverging from the reference trace is followed by a fault-free run, which must still succeed). "
+            "Further fault modes: hard kills (process death at a seam event: no handler or finalizer of the dead session touches the disk again; whatever is on disk, e.g. a partial <archive>.tmp, is what the next process finds), a SECOND fault on events that only exist because of the first one (error handling, fallbacks, clean-up code), faults inside pool workers for real-physics workloads on 2-3 cores, garbage collection at the end of every simulated session (finalizers run at a defined instant), and detection of state a failed session leaves behind in the process (a later run diverging from the reference trace is followed by a fault-free run, which must still succeed). "
             "A second stage runs multi-session store histories (create / puts / metadata, parts, recipe edits / close / reopen ...) twice - fault-free to record the trace, then with 1-3 faults drawn from it: an operation failing through an injected fault kills its session, the user restarts, and at every such point the archive must hold exactly the last committed content (crash recovery across sessions, checked with the persistent-map model and the independent reader)."
         ),
         note="Faults land at seam boundaries and traced Python lines, not inside C calls; no power-loss model (eko never fsyncs); stub physics in most workloads; interrupts that land after the final os.replace are accepted as 'committed'.",
